@@ -44,6 +44,12 @@ def provenance(c: dict, prop: str) -> str:
     want = c["model"]["ch"][m["at"][0] - 1]["kind"] if m.get("ok") else m.get("why", "?")
     with_binds = any(f["kind"] == "with" and f["binds"] for f in ch)
     inh = any(b["k"] == "inh" for f in ch for b in f["binds"])
+    # a right-hand side `n = m' in frame j whose target m is bound lexically only in a frame INSIDE j: resolving it from the
+    # reference site (dynamic scoping) finds a binding the defining scope cannot see
+    def lex_binds(f, name):
+        return f["kind"] in ("let", "rec") and any(b["n"] == name for b in f["binds"])
+    dyn = any(b["k"] in ("ref", "inh") and any(lex_binds(g, b["m"] or b["n"]) for g in ch[j + 1:])
+              for j, f in enumerate(ch) for b in f["binds"])
     lexical = any(f["kind"] in ("let", "rec") and any(b["n"] == "a" for b in f["binds"]) for f in ch)
     if prop == "C10":
         r = c["o"]["resolve"]
@@ -57,7 +63,7 @@ def provenance(c: dict, prop: str) -> str:
                         got = f["kind"]
         # does a with-environment refer to one of its own bindings (treated as recursive by the code)?
         selfref = any(f["kind"] == "with" and any(b["k"] == "ref" and any(x["n"] == b["m"] for x in f["binds"]) for b in f["binds"]) for f in ch)
-        return f"with_frame_has_binds={with_binds}|inherit_in_chain={inh}"
+        return f"with_frame_has_binds={with_binds}|inherit_in_chain={inh}|inner_rebinding_of_rhs_name={dyn}"
     parts = []
     for tag in ("edit", "assign"):
         e = c["o"].get(tag)
@@ -70,7 +76,7 @@ def provenance(c: dict, prop: str) -> str:
             kinds = [ch[j - 1]["kind"] if j > 0 else str(n) for j, n in d["changed"]]
             parts.append(f"{tag}:changed={'+'.join(kinds) or '-'},x={'ref' if d['xref'] else 'lit' if d['xint'] else 'other'}")
     return (f"nested_holder={len(c['keys']) > 1}|with_frame_has_binds={with_binds}|inherit_in_chain={inh}"
-            f"|chain_ends={'literal' if m.get('ok') else m.get('why')}")
+            f"|chain_ends={'literal' if m.get('ok') else m.get('why')}|inner_rebinding_of_rhs_name={dyn}")
 
 
 def diff_chain(a: dict | None, b: dict | None, newv: int) -> dict:
